@@ -483,15 +483,6 @@ func isDisagreement(a Atom) bool {
 // the comparisons `char op const` are decided for char = b and the function
 // accepts b iff no `return false` is reachable.
 func perByteAccepts(fn *ssa.Function) (acc [256]bool, ok bool) {
-	var falseRets []ssa.Instruction
-	for _, ret := range returnsOf(fn) {
-		if b, isC := constBool(ret.Results[0]); isC && !b {
-			falseRets = append(falseRets, ret)
-		}
-	}
-	if len(falseRets) == 0 {
-		return acc, false
-	}
 	isChar := func(v ssa.Value) bool {
 		// s[i]: an Index/Lookup on the string parameter
 		switch x := canon(v).(type) {
@@ -501,6 +492,19 @@ func perByteAccepts(fn *ssa.Function) (acc [256]bool, ok bool) {
 			return x.X == ssa.Value(fn.Params[0])
 		}
 		return false
+	}
+	// the rejections that depend on a byte of the string (a `return false` for the
+	// string as a whole — the empty name — says nothing about one byte)
+	var falseRets []ssa.Instruction
+	for _, ret := range returnsOf(fn) {
+		if b, isC := constBool(ret.Results[0]); isC && !b {
+			if hasAtom(atomsAt(ret.Block()), func(a Atom) bool { return isChar(a.X) || (a.Y != nil && isChar(a.Y)) }) {
+				falseRets = append(falseRets, ret)
+			}
+		}
+	}
+	if len(falseRets) == 0 {
+		return acc, false
 	}
 	natoms := 0
 	for b := 0; b < 256; b++ {
